@@ -102,7 +102,7 @@ struct Built {
 }
 
 /// Builds a program: logical lines (text, marker) with marker 1 = the fault line, 2.. = call sites.
-fn build(rng: &mut Rng, fault: Fault, depth: usize, after_colon: bool, in_block: bool, eol: &str) -> Built {
+fn build(rng: &mut Rng, fault: Fault, depth: usize, recur: usize, after_colon: bool, in_block: bool, eol: &str) -> Built {
     // logical lines: (text, tag) tag 0 none, 1 fault, 10+k call site of depth k (k = 1 innermost)
     let mut lines: Vec<(String, u32)> = vec![];
     lines.push(("DIM SHARED ARR%(5)".into(), 0));
@@ -141,6 +141,19 @@ fn build(rng: &mut Rng, fault: Fault, depth: usize, after_colon: bool, in_block:
             }
             if k < depth {
                 lines.push((format!("  Level{} L%", k + 1), 10 + (depth - k) as u32));
+            } else if recur > 0 {
+                // the innermost SUB calls itself `recur` times from one statement before the fault:
+                // that call site is active `recur` times (tag 10: innermost of all)
+                lines.push((format!("  IF ARR%(1) < {} THEN", recur), 0));
+                lines.push(("    ARR%(1) = ARR%(1) + 1".into(), 0));
+                lines.push((format!("    Level{} L%", k), 10));
+                lines.push(("  ELSE".into(), 0));
+                let mut inner: Vec<(String, u32)> = vec![];
+                body_with_fault(&mut inner);
+                for (t, g) in inner {
+                    lines.push((format!("    {}", t), g));
+                }
+                lines.push(("  END IF".into(), 0));
             } else {
                 let mut inner: Vec<(String, u32)> = vec![];
                 body_with_fault(&mut inner);
@@ -177,7 +190,11 @@ fn build(rng: &mut Rng, fault: Fault, depth: usize, after_colon: bool, in_block:
             hi = base + t.chars().count();
             clo = start_in_line + 1;
             chi = t.chars().count() + 1;
-        } else if *g >= 10 {
+        } else if *g == 10 {
+            for _ in 0..recur {
+                call_rows_by_depth.push((0, k + 1));
+            }
+        } else if *g > 10 {
             call_rows_by_depth.push((*g - 10, k + 1));
         }
         text.push_str(t);
@@ -228,11 +245,15 @@ pub fn run(args: &Args) {
         let after_colon = rng.chance(1, 3);
         let in_block = rng.chance(1, 2);
         let eol = *rng.pick(&["\n", "\r\n", "\r"]);
-        let b = build(&mut rng, fault, depth, after_colon, in_block, eol);
+        let recur = if depth > 0 && fault.is_runtime() && rng.chance(1, 3) { 1 + rng.below(3) as usize } else { 0 };
+        let b = build(&mut rng, fault, depth, recur, after_colon, in_block, eol);
         evaluations += 1;
         sum.count(&format!("fault_{:?}", fault));
         sum.count(&format!("eol_{}", match eol { "\n" => "LF", "\r\n" => "CRLF", _ => "CR" }));
         sum.count(&format!("call_depth_{}", depth));
+        if recur > 0 {
+            sum.count(&format!("self_recursion_{}", recur));
+        }
         let shown = format!("[{:?} depth {} colon {} block {} eol {:?}] {}", fault, depth, after_colon, in_block, eol, b.text.replace('\r', "\\r").replace('\n', "\\n | "));
         let o = run_program(&b.text, &RunOpts { budget: 20_000, ..Default::default() });
         let (kind, row, col, stack): (String, u32, u32, Vec<(u32, u32)>) = match &o {
@@ -276,6 +297,6 @@ pub fn run(args: &Args) {
     sum.write(
         &args.out,
         evaluations,
-        "value level: random texts (0-29 characters over letters, blank, TAB, colon, quote, apostrophe, a non-ASCII letter, CR and LF freely mixed): the real StringView position of every reader index 0..len vs RowCol.position_at. Fault injection: 10 fault kinds (syntax, type mismatch, undefined label, wrong argument count, division by zero, subscript out of range, overflow, and division by zero / overflow in an operation whose left operand carries a prefix minus or NOT) x call depth 0-3 x directly / after a colon x top level / inside FOR+IF x blank and comment lines anywhere x LF / CRLF / CR; expected: the diagnostic kind, the row of the statement in the file, a column inside the statement AND exactly the column of the offending expression or of the operator of the failing operation (every kind but the syntax error), for run-time faults the rows of the active call sites innermost first; and in Coq: the reported position is the model's position of an index inside the statement's characters. Non-trivial = distinct texts.",
+        "value level: random texts (0-29 characters over letters, blank, TAB, colon, quote, apostrophe, a non-ASCII letter, CR and LF freely mixed): the real StringView position of every reader index 0..len vs RowCol.position_at. Fault injection: 10 fault kinds (syntax, type mismatch, undefined label, wrong argument count, division by zero, subscript out of range, overflow, and division by zero / overflow in an operation whose left operand carries a prefix minus or NOT) x call depth 0-3 (a third of the run-time faults in SUBs after 1-3 self-recursive calls from one statement) x directly / after a colon x top level / inside FOR+IF x blank and comment lines anywhere x LF / CRLF / CR; expected: the diagnostic kind, the row of the statement in the file, a column inside the statement AND exactly the column of the offending expression or of the operator of the failing operation (every kind but the syntax error), for run-time faults the rows of the active call sites innermost first; and in Coq: the reported position is the model's position of an index inside the statement's characters. Non-trivial = distinct texts.",
     );
 }
